@@ -3,11 +3,13 @@ C18 line-protocol driver, part 2: the consumer streams (see harness/internal/c18
   httpmap <source> <er|re> <exIn> <exOutM> <exOutN> <a|l> <P> <S> <reOutM> <reOutN> <defM> <defN> <probe> <X-In> <q> <secret>
   httphdr <q|s> <addF> <addV> <setF> <setV1> <setV2> <del1> <del2> <repF> <s|a|l> <search|P> <S> <replace> <X-In> <q> <secret>
   httprwm <prefix> <suffix> <subFind> <subReplace> <subLimit> <a|l|-> <P> <S> <reReplace> <path> <rawQuery> <secret>
+  httphost <pattern1> <pattern2> <$SITE> <file content> <Host> <X-Tenant> <$SECRET>
 `!` = JSON null / absent.  All byte fields must be ASCII.
 -/
 import CaddyModel.C18.MapH
 import CaddyModel.C18.Headers
 import CaddyModel.C18.RwMods
+import CaddyModel.C18.HostGlue
 
 namespace CaddyModel.C18
 
@@ -134,6 +136,21 @@ def handleRwm : List String → String
           "ok " ++ Hex.encode out.path ++ " " ++ Hex.encode out.rawPath ++ " " ++ Hex.encode out.rawQuery
       | _, _, _ => "bad-op"
     | _, _, _, _, _, _, _, _ => "bad-op"
+  | _ => "bad-op"
+
+/-! ### httphost -/
+
+def handleHost : List String → String
+  | [p1, p2, site, file, host, tenant, secret] =>
+    match Hex.decode p1, Hex.decode p2, Hex.decode site, Hex.decode file, Hex.decode host, Hex.decode tenant, Hex.decode secret with
+    | some p1, some p2, some site, some file, some host, some tenant, some secret =>
+      if ![p1, p2, site, file, host, tenant, secret].all isAscii then "bad-op"
+      else if host.isEmpty || host.any (fun b => b = 58 || b = 91 || b = 93) then "bad-op"
+      else if [p1, p2, site, file, host, tenant, secret].any (·.contains 0) then "bad-op"
+      else match hostServe false ⟨site, secret, file, host, tenant⟩ p1 p2 with
+        | some (m1, m2) => "ok " ++ (if m1 then "1" else "0") ++ (if m2 then "1" else "0")
+        | none => "err:provision"
+    | _, _, _, _, _, _, _ => "bad-op"
   | _ => "bad-op"
 
 end CaddyModel.C18
